@@ -36,7 +36,7 @@ CHUNK = 4
 FAMS = ["AsyncFIFO", "CDC", "CDCSame", "BusSync", "CDCReset"]
 
 
-SEEDED_SCALE = {"quick": 1, "thorough": 5}      # multiplies the run counts of the sampled families in plan()
+SEEDED_SCALE = {"quick": 3, "thorough": 5}      # multiplies the run counts of the sampled families in plan()
 
 def plan(tier):
     if tier == "quick":
